@@ -164,9 +164,9 @@ int main(void)
 	L = IN.L & 31;
 	Q = IN.Q & 31;
 #ifdef WITH_BIG
-	if (IN.fl & 0x10) L = pos - 16 + (IN.L & 31);
-	if (IN.fl & 0x20) Q = pos - 16 + (IN.Q & 31);
-	if (IN.fl & 0x40) Q = L + (IN.Q & 3) - 1;
+	if ((IN.fl & 0x10) && pos >= 16) L = pos - 16 + (IN.L & 31);
+	if ((IN.fl & 0x20) && pos >= 16) Q = pos - 16 + (IN.Q & 31);
+	if ((IN.fl & 0x40) && L >= 1) Q = L + (IN.Q & 3) - 1;
 #endif
 	P = IN.P;
 #if NEXT == 0
